@@ -198,23 +198,45 @@ end
 /-! ### history validation (executable)
 
 The harness records the EXTERNAL history of a scenario in the order it observed the events; `checkHistory` replays it
-on the transition system, inserting the hidden actions at canonical places, and accepts iff every step is enabled and
-every observed call result is the one the system produces. -/
+on the transition system, inserting the hidden actions (register, pickConn, send, deliver, chanSend, recv, timeout,
+unregister, socket death, reconnect steps) and accepts iff every inserted step is enabled and every observed call
+result is the one the system produces at that point.
+
+Placement of the hidden actions: answers are delivered when the server writes them (`deliver` is the environment's
+action, enabled as soon as the packet exists; a later real delivery only makes `timeout` results possible, which are
+enabled in any case); a call's register/pickConn/send are placed when its query is seen by the server, or — for a
+call whose query never reaches a server — at the first moment between its begin and its return at which the system
+can produce the observed outcome (a failing send needs an unhealthy connection, a lost query a writable one).
+The order in which concurrent callers pass the connMutex is not observable from outside, so the round-robin counter
+is not replayed: it is placed on the connection the query was observed on. The counter is covered by the theorem
+`round_robin` and by the sequential scenario `go.client.roundrobin`. -/
 
 inductive Event where
+  | begin (k : Nat)                   -- call k is about to call Request
   | query (k c : Nat)                 -- the server received the query of call k on connection c
   | answer (c : Nat) (k : Nat) (body : Body)  -- the server wrote an answer carrying the id of call k on connection c
   | unknown (c : Nat)                 -- ... an answer with an id no call uses
   | other (c : Nat)                   -- ... a packet that is not an answer
   | drop (c : Nat)                    -- the server closed connection c
   | accepted (c : Nat)                -- the server completed a handshake for connection c again
-  | ret (k : Nat) (r : Res) (c : Option Nat)  -- call k returned r (c: the connection its query was seen on, if any)
+  | ret (k : Nat) (r : Res)           -- call k returned r
   deriving Repr, Inhabited
+
+inductive Want where
+  | sendErr   -- the call will return a send error: its send must fail
+  | lost      -- the call will time out and no server ever sees its query
+  deriving DecidableEq, Repr, Inhabited
 
 structure Check where
   st : State
-  /-- calls already advanced to `picked/waiting` by the checker -/
+  /-- calls whose register/pickConn/send the checker has placed -/
   sent : List Nat
+  /-- begun calls whose send is still to be placed -/
+  todo : List (Nat × Want)
+  /-- connections for which the server completed a new handshake; the client becomes Connected a little later -/
+  pendingOk : List Nat := []
+  /-- packets the servers wrote that the checker has not delivered yet: (connection, packet), in the order written -/
+  queue : List (Nat × Packet) := []
   err : Option String
 
 def Check.fail (ck : Check) (msg : String) : Check := if ck.err.isSome then ck else { ck with err := some msg }
@@ -225,10 +247,7 @@ def applyAct (idOf : Nat → Id) (nConn : Nat) (ck : Check) (a : Action) (what :
   | some s => { ck with st := s }
   | none => ck.fail ("not enabled: " ++ what)
 
-/-- bring call k from `start` to after its `send` on connection `c`. The order in which concurrent callers pass the
-connMutex is not observable from outside, so the checker does not replay the round-robin counter: it places it on the
-connection the query was observed on (`c`). The counter itself is checked by the sequential scenario
-`go.client.roundrobin` and by the theorem `round_robin`. -/
+/-- register, pickConn (counter placed on `c`), send -/
 def advanceToSend (idOf : Nat → Id) (nConn : Nat) (ck : Check) (k c : Nat) : Check :=
   if ck.sent.contains k then ck else
   let ck := applyAct idOf nConn ck (.register k) s!"register {k}"
@@ -237,9 +256,17 @@ def advanceToSend (idOf : Nat → Id) (nConn : Nat) (ck : Check) (k c : Nat) : C
   let ck := applyAct idOf nConn ck (.send k) s!"send {k}"
   { ck with sent := k :: ck.sent }
 
-/-- some connection on which a send would fail now (not Connected, dead socket, or closed by the peer) -/
+/-- some connection on which a send would fail now: preferably one that already refuses sends (not Connected or
+dead socket) — using a connection the peer merely closed commits its socket to being dead from now on; as a last
+resort a connection with a spawned `go reconnect()` that has not run yet (a stale one tears down a healthy
+connection: the guard of `reconnect` only looks at the status) -/
 def failingConn (nConn : Nat) (s : State) : Option Nat :=
-  (List.range nConn).find? fun c => (s.conn c).status ≠ .connected || !(s.conn c).sockOk || !(s.conn c).reader
+  match (List.range nConn).find? fun c => (s.conn c).status ≠ .connected || !(s.conn c).sockOk with
+  | some c => some c
+  | none =>
+    match (List.range nConn).find? fun c => !(s.conn c).reader with
+    | some c => some c
+    | none => (List.range nConn).find? fun c => (s.conn c).spawned > 0
 
 /-- some connection on which a send succeeds, preferring one whose peer is gone (the query is lost) -/
 def sendableConn (nConn : Nat) (s : State) : Option Nat :=
@@ -248,70 +275,150 @@ def sendableConn (nConn : Nat) (s : State) : Option Nat :=
   | some c => some c
   | none => (List.range nConn).find? ok
 
+/-- try to place the send of one begun call; `none` = not possible in the current state -/
+def placeOne (idOf : Nat → Id) (nConn : Nat) (ck : Check) (k : Nat) : Want → Option Check
+  | .lost =>
+    match sendableConn nConn ck.st with
+    | none => none
+    | some c => some (advanceToSend idOf nConn ck k c)
+  | .sendErr =>
+    match failingConn nConn ck.st with
+    | none => none
+    | some c =>
+      let ck := applyAct idOf nConn ck (.register k) s!"register {k}"
+      let ck := { ck with st := { ck.st with nextConn := c % nConn } }
+      let ck := applyAct idOf nConn ck (.pickConn k) s!"pickConn {k}"
+      let cn := ck.st.conn c
+      let ck :=
+        if cn.status = .connected ∧ cn.sockOk ∧ !cn.reader then
+          -- the socket of a connection the peer closed dies at a moment the environment chooses
+          applyAct idOf nConn ck (.sockDead c) s!"sockDead {c}"
+        else if cn.status = .connected ∧ cn.sockOk ∧ cn.spawned > 0 then
+          -- a stale spawned reconnect() runs now
+          applyAct idOf nConn ck (.reconnectStart c) s!"reconnectStart {c} (stale)"
+        else ck
+      -- a write failure spawns `go reconnect()`; when it runs is the scheduler's choice: the checker lets it run only
+      -- when the history forces it (a new handshake on this connection)
+      let ck := applyAct idOf nConn ck (.send k) s!"send {k}"
+      let ck := match ck.st.pc k with
+        | .returning .sendErr => ck
+        | _ => ck.fail s!"send of call {k} did not fail"
+      some { ck with sent := k :: ck.sent }
+
+/-- place the sends of begun calls where the current state allows it. A LOST query (timeout, never seen by a server)
+is placed as early as possible: it must precede the first failing send on its connection. A FAILING send is placed as
+late as possible (`errToo k`: just before a connection becomes Connected again, or when call k returns): the
+failure was observed at the return, and it turns the connection to Connecting for everybody else. -/
+def retryTodo (idOf : Nat → Id) (nConn : Nat) (errToo : Nat → Bool) (ck : Check) : Check :=
+  ck.todo.foldl (fun ck (kw : Nat × Want) =>
+    if ck.err.isSome ∨ (kw.2 = .sendErr ∧ !errToo kw.1) then ck else
+    match placeOne idOf nConn ck kw.1 kw.2 with
+    | some ck' => { ck' with todo := ck'.todo.filter (fun x => x.1 != kw.1) }
+    | none => ck) ck
+
 def deliverNow (idOf : Nat → Id) (nConn : Nat) (ck : Check) (c : Nat) (p : Packet) : Check :=
   if !(ck.st.conn c).reader then ck   -- written into a connection nobody reads any more: lost
   else
     let ck := applyAct idOf nConn ck (.deliver c p) s!"deliver {c}"
     if (ck.st.conn c).pending.isSome then applyAct idOf nConn ck (.chanSend c) s!"chanSend {c}" else ck
 
-def checkEvent (idOf : Nat → Id) (nConn : Nat) (freshId : Id) (ck : Check) : Event → Check
+/-- the client side of a completed handshake (`reconnectOk`), preceded by the failing sends still to be placed -/
+def becomeConnected (idOf : Nat → Id) (nConn : Nat) (ck : Check) (c : Nat) : Check :=
+  if ck.pendingOk.contains c then
+    let ck := retryTodo idOf nConn (fun _ => true) ck
+    let ck := applyAct idOf nConn ck (.reconnectOk c) s!"reconnectOk {c}"
+    { ck with pendingOk := ck.pendingOk.filter (· != c) }
+  else ck
+
+/-- deliver the queued packets of connection c in order — all of them, or up to and including the first answer
+carrying `upto` — after the client side of a pending handshake -/
+def flushConn (idOf : Nat → Id) (nConn : Nat) (ck : Check) (c : Nat) (upto : Option Id) : Check :=
+  let ck := becomeConnected idOf nConn ck c
+  let r := ck.queue.foldl (fun (acc : Check × List (Nat × Packet) × Bool) cp =>
+    let (ck, keep, done) := acc
+    if done ∨ cp.1 ≠ c then (ck, keep ++ [cp], done) else
+    let ck := deliverNow idOf nConn ck c cp.2
+    let hit := match cp.2, upto with
+      | .answer id _, some u => id == u
+      | _, _ => false
+    (ck, keep, hit)) (ck, [], false)
+  { r.1 with queue := r.2.1 }
+
+/-- what the rest of the history says about call k: the connection its query is seen on, and its result -/
+def lookQuery (evs : List Event) (k : Nat) : Option Nat :=
+  evs.findSome? fun | .query k' c => if k' = k then some c else none | _ => none
+
+def lookRet (evs : List Event) (k : Nat) : Option Res :=
+  evs.findSome? fun | .ret k' r => if k' = k then some r else none | _ => none
+
+def checkEvent (idOf : Nat → Id) (nConn : Nat) (freshId : Id) (all : List Event) (ck0 : Check) (ev : Event) : Check :=
+  let ck := retryTodo idOf nConn (fun _ => false) ck0
+  match ev with
+  | .begin k =>
+    match lookQuery all k, lookRet all k with
+    | some _, _ => ck                       -- placed when the query is seen
+    | none, some .sendErr => { ck with todo := ck.todo ++ [(k, .sendErr)] }
+    | none, some .timeout => retryTodo idOf nConn (fun _ => false) { ck with todo := ck.todo ++ [(k, .lost)] }
+    | none, some (.ok _) => ck.fail s!"call {k} returned ok but no server saw its query"
+    | none, none => ck                      -- still running when the history was cut
   | .query k c =>
+    if ck.sent.contains k then ck else   -- read by the server only after the call gave up: placed at its return
+    -- a query on a re-accepted connection shows that the client has become Connected
+    let ck := becomeConnected idOf nConn ck c
     let ck := advanceToSend idOf nConn ck k c
-    if ck.st.pc k = .waiting ∨ ck.err.isSome then ck else ck.fail s!"query of call {k} seen but send did not succeed"
-  | .answer c k body => deliverNow idOf nConn ck c (.answer (idOf k) body)
-  | .unknown c => deliverNow idOf nConn ck c (.answer freshId (.good 0))
-  | .other c => deliverNow idOf nConn ck c .other
-  | .drop c => applyAct idOf nConn ck (.connDrop c) s!"connDrop {c}"
+    if ck.st.pc k = .waiting ∨ ck.err.isSome then ck else ck.fail s!"query of call {k} seen but its send cannot succeed"
+  -- written packets are queued; they are delivered (in order, per connection) when the history needs them
+  | .answer c k body => { ck with queue := ck.queue ++ [(c, .answer (idOf k) body)] }
+  | .unknown c => { ck with queue := ck.queue ++ [(c, .answer freshId (.good 0))] }
+  | .other c => { ck with queue := ck.queue ++ [(c, .other)] }
+  -- the confirmation was written before the close: the client still becomes Connected, then sees the end of stream
+  -- ... and what was written before the close is still read
+  | .drop c => applyAct idOf nConn (flushConn idOf nConn ck c none) (.connDrop c) s!"connDrop {c}"
   | .accepted c =>
+    -- a second handshake without a drop in between: the client had become Connected and a stale reconnect() ran
+    let ck := if ck.pendingOk.contains c then flushConn idOf nConn ck c none else ck
     -- a new handshake means a reconnect loop ran: if the model has none yet, a failed ping send started it
     let cn := ck.st.conn c
     let ck := if cn.loops > 0 then ck else
       let ck := if cn.sockOk then applyAct idOf nConn ck (.sockDead c) s!"sockDead {c}" else ck
       let ck := if (ck.st.conn c).spawned > 0 then ck else applyAct idOf nConn ck (.pingFail c) s!"pingFail {c}"
       applyAct idOf nConn ck (.reconnectStart c) s!"reconnectStart {c}"
-    applyAct idOf nConn ck (.reconnectOk c) s!"reconnectOk {c}"
-  | .ret k r oc =>
+    if ck.pendingOk.contains c then ck else { ck with pendingOk := c :: ck.pendingOk }
+  | .ret k r =>
+    let ck := retryTodo idOf nConn (· == k) ck
+    let ck := if ck.todo.any (fun x => x.1 == k) then
+        ck.fail s!"call {k}: no moment between its begin and its return at which the system produces this outcome"
+      else ck
     match r with
     | .ok b =>
+      -- deliver, in order, what was written on the connection that carries the first answer for this call's id
+      let ck := match ck.queue.find? (fun cp => match cp.2 with | .answer id _ => id == idOf k | _ => false) with
+        | some (c, _) => flushConn idOf nConn ck c (some (idOf k))
+        | none => ck
       let ck := applyAct idOf nConn ck (.recv k) s!"recv {k}"
       let ck := match ck.st.pc k with
         | .returning (.ok b') => if b' = b then ck else ck.fail s!"call {k} returned payload {b}, the system delivers {b'}"
         | _ => ck.fail s!"call {k} returned ok but no answer for its id is deliverable"
       applyAct idOf nConn ck (.unregister k) s!"unregister {k}"
     | .timeout =>
-      -- the query may never have reached the server (written into a dead connection): any connection will do
+      -- the server may read the query only after the call has given up: the send still precedes the return
       let ck := if ck.sent.contains k then ck else
-        match (match oc with | some c => some c | none => sendableConn nConn ck.st) with
-        | some c => advanceToSend idOf nConn ck k c
-        | none => ck.fail s!"call {k} returned timeout but no connection accepts a send"
+        match lookQuery all k with
+        | some c => advanceToSend idOf nConn (becomeConnected idOf nConn ck c) k c
+        | none => ck
       let ck := if ck.st.pc k = .waiting ∨ ck.err.isSome then ck else
-        ck.fail s!"call {k} returned timeout but its send cannot have succeeded"
+        ck.fail s!"call {k} returned timeout but is not waiting"
       let ck := applyAct idOf nConn ck (.timeout k) s!"timeout {k}"
       applyAct idOf nConn ck (.unregister k) s!"unregister {k}"
     | .sendErr =>
-      if ck.sent.contains k then ck.fail s!"call {k} returned a send error after its query reached the server" else
-      match (match oc with | some c => some c | none => failingConn nConn ck.st) with
-      | none => ck.fail s!"call {k} returned a send error but every connection is healthy"
-      | some c =>
-      let ck := applyAct idOf nConn ck (.register k) s!"register {k}"
-      let ck := { ck with st := { ck.st with nextConn := c % nConn } }
-      let ck := applyAct idOf nConn ck (.pickConn k) s!"pickConn {k}"
-      -- a send error needs a connection that is not Connected or whose socket is dead; a dropped connection's
-      -- socket dies at a moment the environment chooses
-      let cn := ck.st.conn (c % nConn)
-      let ck := if cn.status = .connected ∧ cn.sockOk ∧ !cn.reader then
-          applyAct idOf nConn ck (.sockDead (c % nConn)) s!"sockDead {c}" else ck
-      let ck := applyAct idOf nConn ck (.send k) s!"send {k}"
       let ck := match ck.st.pc k with
         | .returning .sendErr => ck
-        | _ => ck.fail s!"call {k} returned a send error on a healthy connection"
-      let ck := if (ck.st.conn (c % nConn)).spawned > 0 then
-          applyAct idOf nConn ck (.reconnectStart (c % nConn)) s!"reconnectStart {c}" else ck
+        | _ => ck.fail s!"call {k} returned a send error the system does not produce"
       applyAct idOf nConn ck (.unregister k) s!"unregister {k}"
 
 /-- `none` = the history is a trace of the system; `some why` otherwise -/
 def checkHistory (idOf : Nat → Id) (nConn : Nat) (freshId : Id) (evs : List Event) : Option String :=
-  let ck := evs.foldl (checkEvent idOf nConn freshId) { st := init, sent := [], err := none }
+  let ck := evs.foldl (checkEvent idOf nConn freshId evs) { st := init, sent := [], todo := [], err := none }
   if ck.st.readerBlocked then some "a reader blocked on a full channel" else ck.err
 
 end Tongo.ClientSM
